@@ -181,6 +181,17 @@ func runCase(r *hx.Run, c hx.Case) {
 		r.Fail(c.ID, "harness-build", err.Error())
 		return
 	}
+	// an earlier render of a different message that fails half-way must not influence this one
+	// (state shared between renders would show up as foreign bytes in the leaves)
+	{
+		other := bytex.MsgSpec{From: "other@x.test", To: []string{"else@y.test"}, Enc: msgenc,
+			Parts:  []bytex.PartSpec{{CType: "text/plain", Prod: bytex.Producer{Chunks: [][]byte{bytes.Repeat([]byte("CONFIDENTIAL other message. "), 40)}}}},
+			Attach: []bytex.FileSpec{{Name: "other.bin", Prod: bytex.Producer{Chunks: [][]byte{bytes.Repeat([]byte("secret"), 200)}}}}}
+		if om, err := other.Build(); err == nil {
+			_, _, _ = bytex.SafeWriteTo(om, &bytex.Sink{K: 500 + len(c.ID)%700})
+		}
+		bytex.ResetRand()
+	}
 	desc := bytex.Describe(m, &spec, [3]string{}, bytex.DrawnBoundaries(0, 4))
 	sink := &bytex.Sink{K: -1}
 	_, werr, pan := bytex.SafeWriteTo(m, sink)
